@@ -12,8 +12,11 @@
  *   in between), every byte of the header region replaced by 0x00 / 0xff / '\n' / '9', every 32-bit word of the count
  *   region replaced by 0, 1, v-1, v+1, 2v, -1, 0x7fffffff, 0x80000000, 0x40000000, 65536, and its byte-swap.
  * Part B (files on disk, memory mapped, through decoder_init as the C API loads models):
- *   one model file at a time replaced by a truncated / corrupted / missing one; afterwards, in the same process, the
- *   intact model must load.
+ *   one model file at a time replaced by a truncated / corrupted / missing one; a model that is accepted is USED (half a
+ *   second of a real recording through the search, so that tables pointing outside the file are caught); afterwards,
+ *   in the same process, the intact model must load.
+ * Part C: a decoder that already holds the intact model is re-initialised (decoder_reinit) with the damaged file, then
+ *   with the intact model again, used, and freed (dangling pointers / double frees across re-initialisation).
  *
  * Verdict per trial: REJECT (loader reported failure) is always fine; ACCEPT is a failure for a truncated file and is
  * only counted for a corrupted byte/word (a header byte nobody reads cannot be detected); process exit, sanitizer
@@ -105,7 +108,7 @@ static blob_t damage(const trial_t *t)
 
 static void describe(const trial_t *t, char *out, size_t n)
 {
-    const char *part = t->part == 0 ? "in-memory loader" : "decoder_init from files";
+    const char *part = t->part == 0 ? "in-memory loader" : t->part == 1 ? "decoder_init from files" : "decoder_reinit of a decoder holding the intact model";
     if (t->mut == M_TRUNC) snprintf(out, n, "%s/%s truncated to %zu of %zu bytes (%s)", model_name[t->model], kind_file[t->kind], t->off, files[t->model][t->kind].n, part);
     else if (t->mut == M_BYTE) snprintf(out, n, "%s/%s byte %zu set to 0x%02x (%s)", model_name[t->model], kind_file[t->kind], t->off, t->val, part);
     else if (t->mut == M_WORD) snprintf(out, n, "%s/%s 32-bit word at byte %zu set to 0x%08x (%s)", model_name[t->model], kind_file[t->kind], t->off, t->val, part);
@@ -175,6 +178,52 @@ static decoder_t *init_model(int m, int kind, const char *path)
     return decoder_init(c);
 }
 
+static short audio[8000]; static size_t naudio;
+/* a model that was accepted must also be usable: half a second of a real recording through the search */
+static void use_decoder(decoder_t *x, int m)
+{
+    char path[700];
+    if (naudio == 0 || m != 0) return;
+    snprintf(path, sizeof path, "%s/tests/data/goforward.gram", getenv("SSW_REPO") ? getenv("SSW_REPO") : "/repo");
+    if (decoder_set_jsgf_file(x, path) < 0) _exit(R_SETUP);
+    if (decoder_start_utt(x) < 0) _exit(R_SETUP);
+    decoder_process_int16(x, audio, naudio, 0, 0);
+    decoder_end_utt(x);
+    (void)decoder_hyp(x, NULL);
+}
+
+static config_t *model_config(int m, int kind, const char *path)
+{
+    config_t *c = config_init(NULL);
+    config_set_str(c, "hmm", model_dir[m]);
+    config_set_str(c, "dict", tinydict[m]);
+    config_set_str(c, "loglevel", "FATAL");
+    if (kind >= 0) config_set_str(c, kind_cfg[kind], path);
+    return c;
+}
+
+/* ---- part C: a decoder that holds the intact model is re-initialised with a damaged one, then with the intact one ---- */
+static int reinit_with_damage(const trial_t *t, const blob_t *d)
+{
+    char path[700];
+    decoder_t *x = init_model(t->model, -1, NULL);
+    int rc;
+    if (x == NULL) _exit(R_SETUP);
+    snprintf(path, sizeof path, "%s/damaged.%d", tmpdir, (int)getpid());
+    if (t->mut != M_MISSING) {
+        FILE *f = fopen(path, "wb");
+        if (!f || fwrite(d->p, 1, d->n, f) != d->n) _exit(R_SETUP);
+        fclose(f);
+    }
+    rc = decoder_reinit(x, model_config(t->model, t->kind, path));
+    unlink(path);
+    if (rc >= 0) use_decoder(x, t->model);
+    if (decoder_reinit(x, model_config(t->model, -1, NULL)) < 0) _exit(R_INTACT_FAILS);
+    use_decoder(x, t->model);
+    decoder_free(x);
+    return rc >= 0;
+}
+
 static int load_from_files(const trial_t *t, const blob_t *d)
 {
     char path[700];
@@ -188,6 +237,7 @@ static int load_from_files(const trial_t *t, const blob_t *d)
     }
     x = init_model(t->model, t->kind, path);
     ok = x != NULL;
+    if (x) use_decoder(x, t->model);
     decoder_free(x);
     unlink(path);
     /* "an intact model afterwards loads normally", in the same process */
@@ -203,14 +253,14 @@ static void child(const trial_t *t)
     int ok;
     alarm(120);
     if (t->mut != M_MISSING) d = damage(t);
-    ok = t->part == 0 ? load_in_memory(t, &d) : load_from_files(t, &d);
+    ok = t->part == 0 ? load_in_memory(t, &d) : t->part == 1 ? load_from_files(t, &d) : reinit_with_damage(t, &d);
     free(d.p);
     _exit(ok ? R_ACCEPT : R_REJECT);
 }
 
 /* ---- scheduler ---- */
 static long cases, n_reject, n_accept_corrupt, fails;
-static long per_kind[2][NKIND];
+static long per_kind[3][NKIND];
 static struct { pid_t pid; trial_t t; int slot; } jobs[MAXJOBS];
 static char slot_used[MAXJOBS];
 #define MAXSITES 16
@@ -396,6 +446,16 @@ static void enumerate(int part, int m, int kind, size_t stride, int dense)
         }
     }
     if (part == 1) { t.mut = M_MISSING; t.off = 0; submit(t); }
+    if (part == 1) {
+        /* part C on a few representative damages of this file */
+        t.part = 2;
+        t.mut = M_MISSING; t.off = 0; submit(t);
+        t.mut = M_TRUNC;
+        t.off = he / 2; submit(t);
+        t.off = ce < b->n ? ce : b->n / 2; submit(t);
+        t.off = b->n / 2; submit(t);
+        t.off = b->n - 1; submit(t);
+    }
 }
 
 int main(int argc, char **argv)
@@ -425,11 +485,23 @@ int main(int argc, char **argv)
         snprintf(tinydict[m], sizeof tinydict[m], "%s/dict%d.txt", tmpdir, m);
         in = fopen(path, "r"); out = fopen(tinydict[m], "w");
         if (!in || !out) return 3;
-        while (lines++ < 40 && fgets(line, sizeof line, in)) fputs(line, out);
+        while (fgets(line, sizeof line, in)) {
+            /* the first 40 entries, and the words of tests/data/goforward.gram (use_decoder) */
+            static const char *W[] = { "go", "forward", "backward", "ten", "meters", "meter", "one", "two", "three", "four", "five", "six", "seven", "eight", "nine", NULL };
+            size_t wl = strcspn(line, " \t("); int q, keep = lines++ < 40;
+            for (q = 0; W[q] && !keep; q++) if (strlen(W[q]) == wl && strncmp(W[q], line, wl) == 0) keep = 1;
+            if (keep) fputs(line, out);
+        }
         fclose(in); fclose(out);
         /* the intact model must load: it provides the acmod for the sendump loaders and is the non-vacuity check */
         dec[m] = init_model(m, -1, NULL);
         if (dec[m] == NULL) { printf("FAIL intact model %s does not load\n", model_name[m]); return 1; }
+    }
+    {
+        char path[700]; FILE *f;
+        snprintf(path, sizeof path, "%s/tests/data/goforward.raw", repo);
+        f = fopen(path, "rb");
+        if (f) { if (fseek(f, 2 * 7000, SEEK_SET) == 0) naudio = fread(audio, 2, 8000, f); fclose(f); }
     }
     /* non-vacuity of part A: every intact file is accepted by its loader */
     for (m = 0; m < NMODEL; m++) for (k = 0; k <= K_MDEF; k++) {
@@ -476,7 +548,7 @@ int main(int argc, char **argv)
     printf("SAMPLE en-us/transition_matrices truncated to every length 0..%zu (in memory, exact-size heap block, ASan)\n", files[0][K_TMAT].n - 1);
     printf("SAMPLE en-us/mdef 32-bit count word n_ciphone set to 0x7fffffff (in memory)\n");
     printf("SAMPLE fr-fr/sendump missing, then the intact model loaded in the same process (decoder_init from files)\n");
-    for (k = 0; k < NKIND; k++) printf("SAMPLE trials on %s: %ld in memory, %ld through decoder_init\n", kind_file[k], per_kind[0][k], per_kind[1][k]);
+    for (k = 0; k < NKIND; k++) printf("SAMPLE trials on %s: %ld in memory, %ld through decoder_init, %ld through decoder_reinit of a live decoder\n", kind_file[k], per_kind[0][k], per_kind[1][k], per_kind[2][k]);
     printf("SAMPLE outcome: %ld rejected, %ld corrupted-but-accepted (counted, not failures), %ld failures\n", n_reject, n_accept_corrupt, fails);
     printf("CASES %ld\nDISTINCT %ld\n", cases, cases);
     return fails ? 1 : 0;
